@@ -189,9 +189,13 @@ RECURSIVE PlainEq(_)
 PlainEq(v) == \/ v.t \in {"str", "nil"} \/ (v.t = "int" /\ v.n \notin {0, 1})
               \/ (v.t = "arr" /\ \A i \in DOMAIN v.v : PlainEq(v.v[i]))
               \/ (v.t = "hash" /\ \A i \in DOMAIN v.h : PlainEq(v.h[i][2]))
-AllScalars(s) == \A i \in DOMAIN s : s[i].t \in {"str", "int"}
-Homogeneous(s) == (\A i \in DOMAIN s : s[i].t = "str") \/ (\A i \in DOMAIN s : s[i].t = "int")
-ValLt(a, b) == IF a.t = "str" THEN StrLt(a.v, b.v) ELSE a.n < b.n
+AllScalars(s) == \A i \in DOMAIN s : s[i].t \in {"str", "int", "dec"}
+Homogeneous(s) == (\A i \in DOMAIN s : s[i].t = "str") \/ (\A i \in DOMAIN s : s[i].t \in {"int", "dec"})
+ValLt(a, b) == IF a.t = "str" THEN StrLt(a.v, b.v) ELSE IF a.t = "int" /\ b.t = "int" THEN a.n < b.n ELSE DLt(AsDec(a), AsDec(b))
+\* the sum of numbers: exact; a float among them makes the result a float
+RECURSIVE SumDec(_)
+SumDec(s) == IF s = <<>> THEN Dec(0, 0) ELSE DPlus(IF s[1].t = "nil" THEN Dec(0, 0) ELSE AsDec(s[1]), SumDec(Tail(s)))
+SumOf(s) == IF \E i \in DOMAIN s : s[i].t = "dec" THEN NormDec(SumDec(s)) ELSE IntV(SumInts(s))
 
 \* ---- array filters keyed by a property name ----------------------------------
 \* (filter_reference.md: where / reject / find / find_index / has / map / uniq /
@@ -380,10 +384,10 @@ Apply(name, left, args, cfg) ==
          ELSE IF a1.t # "str" \/ ~AllHashes(seq) \/ Murky(seq, a1.v, a2) THEN Err("UNSPEC")
          ELSE Arr(SelectSeq(seq, LAMBDA h : KeyMatch(h, a1.v, a2)))
     [] name = "sum" ->
-         IF Len(args) = 0 THEN (IF \A i \in DOMAIN seq : seq[i].t \in {"int", "nil"} THEN IntV(SumInts(seq)) ELSE Err("UNSPEC"))
+         IF Len(args) = 0 THEN (IF \A i \in DOMAIN seq : seq[i].t \in {"int", "nil", "dec"} THEN SumOf(seq) ELSE Err("UNSPEC"))
          ELSE IF Len(args) # 1 \/ a1.t # "str" \/ ~AllHashes(seq) THEN Err("UNSPEC")
-         ELSE IF \E i \in DOMAIN seq : Prop(seq[i], a1.v).t \notin {"int", "nil"} THEN Err("UNSPEC")
-         ELSE IntV(SumInts([i \in DOMAIN seq |-> Prop(seq[i], a1.v)]))
+         ELSE IF \E i \in DOMAIN seq : Prop(seq[i], a1.v).t \notin {"int", "nil", "dec"} THEN Err("UNSPEC")
+         ELSE SumOf([i \in DOMAIN seq |-> Prop(seq[i], a1.v)])
     [] name \in {"reject", "find", "find_index", "has"} ->
          IF Len(args) \notin {1, 2} THEN Err("LiquidTypeError")
          ELSE IF a1.t # "str" \/ ~AllHashes(seq) \/ Murky(seq, a1.v, a2) THEN Err("UNSPEC")
@@ -422,11 +426,12 @@ Apply(name, left, args, cfg) ==
     [] name = "slice" ->
          \* filter_reference.md: zero-based start (negative: from the end), length defaults to 1
          IF Len(args) \notin {1, 2} THEN Err("LiquidTypeError")
-         ELSE IF a1.t # "int" \/ (Len(args) = 2 /\ a2.t # "int") THEN Err("UNSPEC")
+         ELSE IF a1.t = "undef" THEN Err("LiquidTypeError")                    \* "slice expected an integer, found Undefined"
+         ELSE IF a1.t # "int" \/ (Len(args) = 2 /\ a2.t \notin {"int", "undef"}) THEN Err("UNSPEC")
          ELSE IF left.t \notin {"str", "arr"} THEN Err("UNSPEC")
          ELSE LET items == IF left.t = "str" THEN left.v ELSE left.v
                   n == Len(items)
-                  len == IF Len(args) = 2 THEN a2.n ELSE 1
+                  len == IF Len(args) = 2 /\ a2.t = "int" THEN a2.n ELSE 1      \* an undefined length counts as the default
                   st == IF a1.n < 0 THEN n + a1.n ELSE a1.n
               \* a start before the beginning: the window [st, st + len) still counts from there (what falls
               \* before the first item is not there); MC_Filters also accepts the empty result for it
@@ -439,6 +444,7 @@ Apply(name, left, args, cfg) ==
          ELSE Str(ReplaceLast(ls, ToStr(a1), IF name = "replace_last" THEN ToStr(a2) ELSE ""))
     [] name = "truncatewords" ->
          IF Len(args) > 2 THEN Err("LiquidTypeError")
+         ELSE IF Len(args) >= 1 /\ a1.t = "undef" THEN Err("LiquidTypeError")
          ELSE IF Len(args) >= 1 /\ a1.t # "int" THEN Err("UNSPEC")
          ELSE LET n0 == IF Len(args) >= 1 THEN a1.n ELSE 15
                   n == IF n0 <= 0 THEN 1 ELSE n0
@@ -453,8 +459,8 @@ Apply(name, left, args, cfg) ==
          ELSE Arr(SortBy(LAMBDA x, y : StrLt(DownCase(x.v), DownCase(y.v)), seq))
     [] name = "sort_numeric" ->
          IF Len(args) # 0 THEN Err("UNSPEC")
-         ELSE IF ~(\A i \in DOMAIN seq : seq[i].t = "int" \/ (seq[i].t = "str" /\ IsIntStr(seq[i].v))) THEN Err("UNSPEC")
-         ELSE Arr(SortBy(LAMBDA x, y : NumLeft(x) < NumLeft(y), seq))
+         ELSE IF ~(\A i \in DOMAIN seq : seq[i].t \in {"int", "dec"} \/ (seq[i].t = "str" /\ IsIntStr(seq[i].v))) THEN Err("UNSPEC")
+         ELSE Arr(SortBy(LAMBDA x, y : DLt(DecOf(x), DecOf(y)), seq))
     [] name = "escape_once" ->
          IF Len(args) # 0 THEN Err("LiquidTypeError")
          ELSE IF ae \/ ~OnlyKnownEntities(ls) THEN Err("UNSPEC") ELSE Str(EscapeHtml(Unescape(ls)))
